@@ -3,26 +3,26 @@ CONSTANTS
   AckMode = "shaped"
   ThrMode = "fixed"
   EmptyMode = "fixed"
-  CfgSet <- CoreCfgs
-  SameCfg = FALSE
+  CfgSet <- DgCfgs
+  SameCfg = TRUE
   Openers = {"A"}
   MaxOpens = 1
   Ids = {1}
   Hosts = {"h0"}
-  MaxWrites = 3
-  Lens = {1, 2}
-  ReadMax = {1, 4}
+  MaxWrites = 1
+  Lens = {1}
+  ReadMax = {4}
   Closers = {}
   MuxDroppers = {}
-  DgSenders = {}
-  MaxDgrams = 0
+  DgSenders = {"A", "B"}
+  MaxDgrams = 3
   Binders = {}
   MaxBinds = 0
   Faults = {}
   AdvMsgs = {}
   MaxAdv = 0
-  MaxHandles = 2
-  MaxCtr = 1
+  MaxHandles = 1
+  MaxCtr = 4
 VIEW View
 CONSTRAINT Bound
 INVARIANTS NoViolation TypeOK AckSound QueueBound InitialCredit ExactlyOne TargetCarried BoundedRetry Released DoneResolved
